@@ -141,7 +141,7 @@ def agrees(vec, rd, route, got, err):
                 v = float(frac(ex['tau'][r] if twod else ex['v']))
                 if not (finite(g) and close(g, v, rel=REL)):
                     return 'target %r row %d: got %r, overlap-weighted mean %r' % (ex['tb'], r, g, v)
-            elif not (g == 0.0 or (ex['touch'] and g != g)):
+            elif not (g == 0.0 or g != g):      # nothing binned: "no data" (0 or NaN), as in the clause no_overlap_untouched
                 return 'target %r does not overlap the native grid: got %r' % (ex['tb'], g)
         if err is not None and ex['ov']:
             ge, e2 = float(err[k]), float(frac(ex['e2']))
